@@ -85,6 +85,8 @@ RW = [
       note='single-pattern matcher (f $p $q) on every final state of T1, pattern slot names free'),
     T('M3', 'Lf', 5, [add(h(0, 1, 2)), ematch(h(3, 4, 3)), ematch(h(3, 3, 4))], distinct=[[0, 1, 2]], late={3: 1, 4: 1},
       note='non-linear pattern (h $x $y $x) against three distinct slots: must not match under any naming'),
+    T('M4', 'Lb', 5, [add(app(var(0), app(var(1), var(2)))), ematch(app(var(3), app(var(4), var(3)))), ematch(app(var(3), app(var(3), var(4))))], distinct=[[0, 1, 2]], late={3: 1, 4: 1},
+      note='non-linear pattern spread over several e-nodes against three distinct slots: must not match under any naming'),
     T('M2', 'Lb', 4, [add(app(var(0), var(1))), add(lam(0, app(var(0), var(1)))), ematch(app('?a', '?b')), ematch(app('?a', '?a')), ematch(lam(2, '?b')), ematch(app(var(3), '?b'))], late={2: 4, 3: 5},
       note='patterns with variables, a repeated variable, a binder, a nested leaf'),
     T('R1', 'Lf', 6, [add(f(0, 1)), add(f(2, 3)), union(f(0, 1), f(2, 3)), rewrite(rule('f-to-g', f(4, 5), g(5, 4))), probe(g(1, 0)), probe(g(3, 2)), rewrite(rule('f-to-g', f(4, 5), g(5, 4)))], late={4: 3, 5: 3},
